@@ -62,7 +62,8 @@ def run_case(part, case, prange=None):
             exp = graphref.edges_acyclic(n, [e for e, b in zip(edges, pattern) if b])
             gcheck.judge(part, key, case, pattern, exp, s, [gcheck.fix(a, b) for a, b in zip(v, vals)])
     else:
-        for pattern in gcheck.patterns(m, prange):
+        pats = [tuple(bool(b) for b in pt) for pt in case["patterns"]] if "patterns" in case else gcheck.patterns(m, prange)
+        for pattern in pats:
             exp = graphref.edges_acyclic(n, [e for e, b in zip(edges, pattern) if b])
             if form == "const":
                 try:
@@ -88,6 +89,9 @@ def run_case(part, case, prange=None):
                     gcheck.judge(part, key, case, pattern, exp, s, fixes)
             else:
                 gcheck.judge(part, key, case, pattern, exp, s, callers(pattern))
+    if "patterns" in case:
+        part.add("scale", (n, m))
+        return
     part.add("graphs", (n, tuple(edges)))
     part.count("subsets", 1 << m)
 
@@ -118,9 +122,39 @@ def cases_for(tier):
     return out
 
 
+def scale_cases(tier):
+    """Deep forests on larger graphs (deterministic, not exhaustive)."""
+    out = []
+    big = [(4, 4), (3, 6), (6, 3), (1, 14)] if tier == "quick" else [(4, 4), (3, 6), (6, 3), (5, 5), (4, 7), (1, 24), (6, 6)]
+    for h, w in big:
+        edges = graphref.orient(graphref.grid_edges(h, w), 3)
+        eidx = {frozenset(e): k for k, e in enumerate(edges)}
+        cell = lambda c: c[0] * w + c[1]  # noqa: E731
+        ham = graphref.boustrophedon(h, w)
+        path = [eidx[frozenset((cell(a), cell(b)))] for a, b in zip(ham, ham[1:])]
+        m = len(edges)
+
+        def pat(idxs):
+            st = set(idxs)
+            return [k in st for k in range(m)]
+
+        pats = [pat(path), pat([]), pat(range(m)), pat(path[: len(path) // 2] + path[len(path) // 2 + 1 :])]
+        extra = [k for k in range(m) if k not in set(path)]
+        for k in extra[:3] + extra[-2:]:
+            pats.append(pat(path + [k]))  # one chord closes a cycle
+        # comb: first column + every row
+        comb = [eidx[frozenset((cell((y, 0)), cell((y + 1, 0))))] for y in range(h - 1)] + [eidx[frozenset((cell((y, x)), cell((y, x + 1))))] for y in range(h) for x in range(w - 1)]
+        pats.append(pat(comb))
+        out.append({"form": "vars", "n": h * w, "edges": edges, "patterns": pats})
+    for n in ((12, 16) if tier == "quick" else (12, 16, 24, 30)):
+        cyc = [(i, (i + 1) % n) for i in range(n)]
+        out.append({"form": "vars", "n": n, "edges": cyc, "patterns": [[True] * n, [True] * (n - 1) + [False], [False] + [True] * (n - 1), [i % 2 == 0 for i in range(n)]]})
+    return out
+
+
 def prepare(tier):
     global _CASES
-    _CASES = cases_for(tier)
+    _CASES = cases_for(tier) + scale_cases(tier)
     return _CASES
 
 
@@ -141,14 +175,14 @@ def main(tier, seed, only=None):
         "exploration",
         "all labelled loop-free multigraphs: %s (multiplicity <= 2, 3 for n=2)%s, in up to 4 edge-list presentations; all 2^m "
         "edge subsets; flags as variables / BoolArray1D / negated variables / constants / x|y (4 decompositions per subset) / "
-        "gokigen-style paired v,~v.  Oracle: union-find acyclicity of the active multigraph (two active parallel edges = cycle)."
+        "gokigen-style paired v,~v.  Scale family (not exhaustive): Hamiltonian paths, combs, single chords and cycles on grid graphs up to 4x4/3x6 (thorough 6x6) and cycles C12..C30.  Oracle: union-find acyclicity of the active multigraph (two active parallel edges = cycle)."
         % (
             "n<=4 with <=5 edges" if tier == "quick" else "n<=4 with <=6 edges",
             "" if tier == "quick" else ", all simple graphs on 5 vertices with <= 7 edges",
         ),
     )
     run.assumptions = ["implementation under test = encoding + cspuz z3 backend", "loops are outside the property's quantifier"]
-    shards = gcheck.split_shards(cases, lambda c: (1 << len(c['edges'])) * (4 if c['form'] == 'or' else 1), 500)
+    shards = gcheck.split_shards(cases, lambda c: 30 * len(c['patterns']) if 'patterns' in c else (1 << len(c['edges'])) * (4 if c['form'] == 'or' else 1), 500)
     par.run_shards(run, worker, shards, seed)
     cov = {
         "evaluations": run.c("evaluations"),
